@@ -3,9 +3,13 @@ package main
 import (
 	"bytes"
 	"fmt"
+	"os"
+	"path/filepath"
+	"strings"
 
 	"github.com/ozanh/ugo"
 	"github.com/ozanh/ugo/encoder"
+	"github.com/ozanh/ugo/importers"
 )
 
 // (case id modgraph <opt|noopt> <encdec 0|1> <main hex> <module hex>...)
@@ -68,4 +72,67 @@ func runModGraph(args []*Sexp) *Sexp {
 	g2 := ugo.Map{"log": ugo.Array{}, "apply": mkApply(false), "applyp": mkApply(true)}
 	r2 := runBytecode(bc, g2)
 	return L(A("modgraph"), r1, SexpOfValue(g1["log"]), r2, SexpOfValue(g2["log"]), pairs, A(fmt.Sprint(bc.NumModules)))
+}
+
+// (case id fileimp <opt|noopt> <workdir hex> (files (<path hex> <src hex>)...) <main hex>)
+// File modules through importers.FileImporter over a virtual file tree. Paths of files are relative
+// to a virtual root directory <cwd>/vroot; in the work directory and in the sources @ROOT@ stands
+// for the absolute path of that root and @CWDBASE@ for the last element of the process directory
+// (for spellings which climb above a relative work directory and come back).
+// -> (fileimp <result> <log> (cwd <hex>))
+func runFileImp(args []*Sexp) *Sexp {
+	cwd, err := os.Getwd()
+	if err != nil {
+		return L(A("harness-error"), A(sanitize(err.Error())))
+	}
+	root := filepath.Join(cwd, "vroot")
+	subst := func(b []byte) string {
+		s := strings.ReplaceAll(string(b), "@ROOT@", root)
+		return strings.ReplaceAll(s, "@CWDBASE@", filepath.Base(cwd))
+	}
+	files := map[string]string{}
+	for _, f := range args[2].List[1:] {
+		files[filepath.Join(root, string(atomBytes(f.List[0])))] = subst(atomBytes(f.List[1]))
+	}
+	reader := func(name string) ([]byte, error) {
+		abs, err := filepath.Abs(name)
+		if err != nil {
+			return nil, err
+		}
+		src, ok := files[abs]
+		if !ok {
+			return nil, os.ErrNotExist
+		}
+		return []byte(src), nil
+	}
+	mm := moduleMapStd()
+	mm.SetExtImporter(&importers.FileImporter{WorkDir: subst(atomBytes(args[1])), FileReader: reader})
+	opts := ugo.CompilerOptions{ModuleMap: mm, NoOptimize: args[0].Atom == "noopt"}
+	bc, err, pan := compileSrc([]byte(subst(atomBytes(args[3]))), opts)
+	if pan != nil {
+		return L(A("compile-panic"), A(sanitize(fmt.Sprint(pan))))
+	}
+	if err != nil {
+		return L(A("compile-error"), A(sanitize(firstLine(err.Error()))))
+	}
+	g := ugo.Map{"log": ugo.Array{}}
+	r := runBytecode(bc, g)
+	return L(A("fileimp"), r, SexpOfValue(g["log"]), L(A("cwd"), hexAtom([]byte(cwd))))
+}
+
+// (case id finame (<workdir hex> <name hex>)...) -> (finame (cwd <hex>) <Name() hex>...)
+// FileImporter.Name for a work directory and an import name, as the compiler asks for it.
+func runFiName(args []*Sexp) *Sexp {
+	cwd, _ := os.Getwd()
+	out := L(A("finame"), L(A("cwd"), hexAtom([]byte(cwd))))
+	for _, p := range args {
+		fi := &importers.FileImporter{WorkDir: string(atomBytes(p.List[0]))}
+		ext := fi.Get(string(atomBytes(p.List[1])))
+		if ext == nil {
+			out.List = append(out.List, A("none"))
+			continue
+		}
+		out.List = append(out.List, hexAtom([]byte(ext.Name())))
+	}
+	return out
 }
